@@ -5,3 +5,9 @@ pub fn get_libs() -> HashMap<String, &'static str> {
     include!(concat!(env!("OUT_DIR"), "/stdlib_generated.rs"));
     stdlib
 }
+
+/// Whether an import path names one of the libraries compiled into the binary.
+/// Any other path below a directory called std is an ordinary relative path.
+pub fn is_embedded(path: &str) -> bool {
+    get_libs().contains_key(&path.replace("\\", "/"))
+}
